@@ -7,6 +7,7 @@
       cov[k] = (1/N_k) * sum over {t : t in F, t-k in F} of (x[t]-m)(x[t-k]-m),
       N_k the size of that set; the function returns cov[k]/cov[0] for
       k = 1..maxlag and cov[0].
+   water_year_end(x, w): see WyeDef.
    goue(aggindex, values) = 1 - sum (v - g)^2 / sum (v - mean v)^2 where g is
       the mean of the group of v (consecutive equal aggindex values): the Nash-
       Sutcliffe efficiency of the flat-disaggregated series. *)
@@ -34,8 +35,16 @@ Goue(ix, v) == LET n == Len(v)
                    m == Mean(v, all)
                IN RSub(R(1), RDiv(Sum([t \in 1..n |-> RSq(RSub(R(v[t]), GroupMean(ix, v, t)))]),
                                   Sum([t \in 1..n |-> RSq(RSub(R(v[t]), m))])))
+\* water_year_end: the month (first one on ties) whose circular moving sum of the monthly totals over a centred window of w
+\* months is the lowest
+Circ(ms, k, w) == LET hw == (w - 1) \div 2 IN SumSeq([j \in 1..w |-> ms[((k - 1 + (j - 1 - hw) + 12) % 12) + 1]])
+WyeDef(ms, w) == CHOOSE k \in 1..12 : /\ \A j \in 1..12 : Circ(ms, k, w) <= Circ(ms, j, w)
+                                       /\ \A i \in 1..(k - 1) : Circ(ms, i, w) > Circ(ms, k, w)
 Accept(t) == LET r == TLog[t] IN
-   IF r.kind = "acf" THEN
+   IF r.kind = "wye" THEN
+      /\ Clause(t, "water-year-end-is-month-of-lowest-moving-average", r.month = WyeDef(r.msum, r.w))
+      /\ Clause(t, "inputs-unchanged", r.argsame)
+   ELSE IF r.kind = "acf" THEN
       /\ Clause(t, "cov0-definition", r.cov0 = Cov(r.x, r.idx, 0))
       /\ Clause(t, "acf-definition", \A k \in 1..Len(r.acf) : r.acf[k] = RDiv(Cov(r.x, r.idx, k), Cov(r.x, r.idx, 0)))
       /\ Clause(t, "inputs-unchanged", r.argsame)
